@@ -366,7 +366,13 @@ func TestC01(t *testing.T) {
 	// (1c) message-level mutants: fields of the QuoteV4 message that no byte string can express
 	// (32-bit message fields that serialise to 16 bits) and single bits of every signed field.
 	gen.Direct(t, "message-fields", func(t *testing.T) {
-		w := gen.NewWorld(gen.NewPKI(gen.PKISpec{Seed: "pki-B"}), gen.NewStream(gen.Seed()+5, "c01msg")).Build()
+		w := gen.NewWorld(gen.NewPKI(gen.PKISpec{Seed: "pki-B"}), gen.NewStream(gen.Seed()+5, "c01msg"))
+		// ISVSVN and ISVPRODID of zero, and a QE identity whose first level demands more: a message value of
+		// exactly 65536 serialises to the signed 0 but compares as 65536
+		w.Q.QeIsvSvn, w.Q.QeIsvProdID = 0, 0
+		w.HonestCollateral()
+		w.QeID.Levels = []gen.QeLevel{{Isvsvn: 3, Status: "UpToDate"}, {Isvsvn: 0, Status: "UpToDate"}}
+		w.Build()
 		type mm struct {
 			name  string
 			apply func(m *pb.QuoteV4)
